@@ -40,6 +40,7 @@ type fobj struct {
 	syncedSize int64
 	everSynced bool
 	createSize int64
+	syncGen    int // incremented at every sync of this file
 }
 
 // DiskTracker observes every persistence step and materialises crash images.
@@ -64,6 +65,8 @@ type DiskTracker struct {
 	snapshot func() (acked uint64, ncommits int, step uint64, phase string)
 	enabled  bool
 	lastSig  string
+	lastPowerSig string
+	KillImages bool // false = power-loss images only (C10; kill images are C08's job)
 	Capture  bool // images are taken only while the scheduler serialises execution
 	// torn-write synthesis
 	Torn      bool
@@ -148,6 +151,7 @@ func (d *DiskTracker) markSynced(path string) {
 	o.synced = append(o.synced[:0], trimZeros(c)...)
 	o.syncedSize = sz
 	o.everSynced = true
+	o.syncGen++
 }
 
 // onMmap receives ristretto's mmap-file life-cycle events.
@@ -351,7 +355,9 @@ func (d *DiskTracker) event(kind, path string) {
 		return
 	}
 	at := fmt.Sprintf("#%d %s %s", d.Events, kind, filepath.Base(strings.ReplaceAll(path, "\x00", "->")))
-	d.captureLocked("kill", at)
+	if d.KillImages || !d.power {
+		d.captureLocked("kill", at)
+	}
 	if d.power {
 		d.capturePowerLocked(at, false)
 	}
@@ -415,8 +421,18 @@ func (d *DiskTracker) capturePowerLocked(at string, emptyVariant bool) {
 	}
 	img := &Image{Event: d.Events, Kind: kind, At: at, Dirs: map[string]map[string]FileImg{}}
 	d.meta(img)
+	var sig strings.Builder
 	for _, dir := range d.dirs {
 		files := map[string]FileImg{}
+		names := make([]string, 0, len(d.durable[filepath.Clean(dir)]))
+		for name := range d.durable[filepath.Clean(dir)] {
+			names = append(names, name)
+		}
+		sort.Strings(names)
+		for _, name := range names {
+			o := d.durable[filepath.Clean(dir)][name]
+			fmt.Fprintf(&sig, "%s:%d:%v:%d:%d;", name, o.id, o.everSynced, o.syncGen, o.createSize)
+		}
 		for name, o := range d.durable[filepath.Clean(dir)] {
 			switch {
 			case o.everSynced:
@@ -429,6 +445,13 @@ func (d *DiskTracker) capturePowerLocked(at string, emptyVariant bool) {
 		}
 		img.Dirs[dir] = files
 	}
+	// the durable state only changes at sync / dir-sync events: verify a state
+	// again only when more commits had been acknowledged in the meantime
+	ps := kind + sig.String() + fmt.Sprint(img.Acked)
+	if ps == d.lastPowerSig {
+		return
+	}
+	d.lastPowerSig = ps
 	d.Images = append(d.Images, img)
 }
 
